@@ -91,6 +91,7 @@ private:
         std::string debug_peer;
         std::string debug_origin;
         std::atomic<bool> socket_closed{false};
+        std::mutex write_mutex;
     };
 
     PeerId self_id_{};
